@@ -251,18 +251,10 @@ class SeriesSchema(ArraySchema[pd.Series]):
             check_obj = check_obj.pandera.add_schema(self)
             return cast(pd.Series, check_obj)
 
-        validated_obj = super().validate(
-            check_obj=check_obj,
-            head=head,
-            tail=tail,
-            sample=sample,
-            random_state=random_state,
-            lazy=lazy,
-            inplace=inplace,
-        )
-        if self.index is not None:
-            validated_obj = self.index.validate(
-                check_obj,
+        series_errors = None
+        try:
+            validated_obj = super().validate(
+                check_obj=check_obj,
                 head=head,
                 tail=tail,
                 sample=sample,
@@ -270,6 +262,42 @@ class SeriesSchema(ArraySchema[pd.Series]):
                 lazy=lazy,
                 inplace=inplace,
             )
+        except errors.SchemaErrors as exc:
+            if self.index is None:
+                raise
+            # lazy validation: keep the series errors and still validate the
+            # index so that the report contains all errors.
+            series_errors = exc
+            validated_obj = check_obj if inplace else check_obj.copy()
+
+        if self.index is not None:
+            # validate the index of the already parsed (and, unless inplace,
+            # copied) series so that the parsed values are returned and the
+            # caller's object is not modified by index coercion.
+            try:
+                validated_obj = self.index.validate(
+                    validated_obj,
+                    head=head,
+                    tail=tail,
+                    sample=sample,
+                    random_state=random_state,
+                    lazy=lazy,
+                    inplace=True,
+                )
+            except errors.SchemaErrors as exc:
+                if series_errors is None:
+                    raise
+                raise errors.SchemaErrors(
+                    schema=self,
+                    schema_errors=[
+                        *series_errors.schema_errors,
+                        *exc.schema_errors,
+                    ],
+                    data=validated_obj,
+                ) from exc
+
+        if series_errors is not None:
+            raise series_errors
         return cast(pd.Series, validated_obj)
 
     def example(self, size=None) -> pd.Series:
